@@ -23,6 +23,15 @@ def atoiZ (cs : List Char) : Option Int :=
   | '+' :: r => (atoiNat r).map fun v => (v : Int)
   | _ => (atoiNat cs).map fun v => (v : Int)
 
+/-- `fmt.Sprintf("%d", v)` for any int -/
+def itoaZ (v : Int) : List Char := if v < 0 then '-' :: itoa v.natAbs else itoa v.toNat
+
+/-- the exported `LPadInt(v, size)` on all ints: the decimal text, left-padded with `0` up to `size` characters
+    (a text longer than `size` is returned as it is; the sign of a negative `v` ends up behind the padding: "0-5") -/
+def lpadInt (v size : Int) : List Char :=
+  let s := itoaZ v
+  if (s.length : Int) > size then s else List.replicate (size - s.length).toNat '0' ++ s
+
 structure PStateZ where
   y : Option Int := none
   m : Option Int := none
